@@ -52,3 +52,26 @@ for nm, anchor, sets in (('is_state_active', 'bool is_state_active ( ) const', 1
 UNITS.append(Unit('backmp11.get_active_state_ids', ['C03', 'C13'], 'backmp11', Part(SB, [], 'const active_state_ids_t & get_active_state_ids ( ) const'),
     'const uint16_t* get_active_state_ids(const fsm_t* self)', 'visitor_mp11.spec.h',
     xform=back_xform([], refparams=(), members=['m_active_state_ids'], enums=ENUMS, drop=DROP2), replay=['order']))
+UNITS.append(Unit('backmp11.state_visitor_impl.all.visit', ['C03', 'C13'], 'backmp11',
+    Part(SV, ['class state_visitor_impl < StateMachine , Visitor , Mode , true , Predicates ... >'], 'static void visit ( StateMachine & sm , Visitor & visitor )'),
+    'void visit_all(fsm_t* sm)', 'visitor_mp11.spec.h', defines=['UNIT_VISIT_ALL=1'],
+    xform=back_xform(['accept'], refparams=('sm',), enums=ENUMS, drop=DROP2, foreach=True, size_of=gm, pre_rewrites=PRE,
+        rewrites=[dict(name='TVAL-needs', pat='base :: needs_traversal :: value', rep='NEEDS_TRAVERSAL', min=0, max=1),
+                  dict(name='SCOPE-accept', pat='base :: accept ( Mode , State , sm , visitor ) ;', rep='accept_all ( State , sm ) ;', min=0, max=1),
+                  dict(name='SCOPE-accept2', pat='base :: template accept < Mode , State > ( sm , visitor ) ;', rep='accept_all ( State , sm ) ;', min=0, max=1)]),
+    loops={0: '__CPROVER_assigns(state_identity, g_all_next)\n__CPROVER_loop_invariant(0 <= state_identity && state_identity <= g_m && g_all_next == state_identity)\n__CPROVER_decreases(g_m - state_identity)'},
+    replay=['order']))
+UNITS.append(Unit('backmp11.event_deferral_visitor.accept', ['C05', 'C03', 'C13'], 'backmp11',
+    Part(SV, ['class event_deferral_visitor'], 'static void accept ( StateMachine & sm , Visitor & visitor )'), 'void accept_unit(fsm_t* sm, type_t State)', 'visitor_mp11.spec.h',
+    xform=back_xform(['get_state', 'mp_contains'], refparams=('sm',), enums=ENUMS, drop=DROP2, rewrites=ARW + [
+        dict(name='visitor-call-fsm', pat='visitor ( state , sm -> get_fsm_argument ( ) ) ;', rep='visitor_call ( state ) ;', min=0, max=1),
+        dict(name='TVAR-subvisitor', pat='using submachine_visitor = $*A ;', rep='', min=0, max=1),
+        dict(name='recursion-deferral', pat='submachine_visitor :: visit ( state , visitor ) ;', rep='submachine_visit_if ( state ) ;', min=0, max=1)]),
+    defines=['RECURSIVE=1'], replay=['defer']))
+UNITS.append(Unit('backmp11.init_state_visitor.call', ['C07', 'C15', 'C09', 'C13'], 'backmp11',
+    Part(SV, ['class init_state_visitor'], 'void operator ( ) ( State & state )'), 'void init_visitor_call(initvis_t* self, stref_t state)', 'visitor_mp11.spec.h', defines=['UNIT_INIT_VISITOR=1'],
+    xform=back_xform([], refparams=(), members=['m_root_sm'], enums=ENUMS, drop=DROP2, pre_rewrites=[
+        dict(name='SCOPE-exit', pat='has_exit_pseudostate_be_tag < State > :: value', rep='g_is_exit_pseudo', min=1, max=1),
+        dict(name='SCOPE-sm', pat='has_state_machine_tag < State > :: value', rep='g_is_submachine', min=1, max=1),
+        dict(name='member-init', pat='state . template init < RootSm > ( ) ;', rep='exit_state_init ( state ) ;', min=0, max=1),
+        dict(name='root-pointer', pat='* state . m_root_sm = & m_root_sm ;', rep='set_root_of ( state , m_root_sm ) ;', min=0, max=1)]), replay=['copy']))
